@@ -186,7 +186,7 @@ static inline void check_error_struct(const carquet_error_t& e, const char* what
 }
 
 // read one chunk completely with a single large read_batch; returns false on error
-struct ReadChunk { Chunk ch; int64_t reported = 0; bool ok = false; };
+struct ReadChunk { Chunk ch; int64_t reported = 0; bool ok = false; int errors = 0; };
 
 static inline void unpack_values(int type, int tlen, const uint8_t* buf, size_t count, std::vector<std::string>& out) {
     size_t w = slot_width(type, tlen);
@@ -199,7 +199,7 @@ static inline void unpack_values(int type, int tlen, const uint8_t* buf, size_t 
     }
 }
 
-static inline ReadChunk read_chunk_whole(carquet_reader_t* r, int rg, int col, int type, int tlen, int max_def, int64_t expect_entries) {
+static inline ReadChunk read_chunk_whole(carquet_reader_t* r, int rg, int col, int type, int tlen, int max_def, int64_t expect_entries, int retries = 0) {
     ReadChunk rc;
     carquet_error_t err = CARQUET_ERROR_INIT;
     carquet_column_reader_t* cr = cq::reader_get_column(r, rg, col, &err);
@@ -213,7 +213,8 @@ static inline ReadChunk read_chunk_whole(carquet_reader_t* r, int rg, int col, i
         int64_t want = cap - (int64_t)rc.ch.def.size();
         if (want <= 0) break;
         int64_t n = cq::column_read_batch(cr, vals.get(), want, (int16_t*)defs.get(), (int16_t*)reps.get());
-        if (n < 0) { rc.ok = false; break; }
+        // retries > 0: a caller that keeps reading after a failed call (transient fault); what later calls deliver must continue the sequence
+        if (n < 0) { rc.ok = false; if (++rc.errors > retries) break; continue; }
         if (n == 0) break;
         SIM_CHECK(n <= want, "read.count_exceeds_max_values", "read_batch(max=%lld) returned %lld", (long long)want, (long long)n);
         rc.reported += n;
